@@ -272,6 +272,19 @@ func framesProp(c *pbt.C) {
 				first = p
 			}
 		}
+		// changes at the same position can cancel: the first byte that really differs counts
+		first = len(stream)
+		for i := range stream {
+			if stream[i] != valid[i] {
+				first = i
+				break
+			}
+		}
+		if first == len(stream) {
+			expectOK, cleanEOF = n, true
+			descr = fmt.Sprintf("%d changes that cancel each other", k)
+			break
+		}
 		expectOK = frameOf(first)
 		afterHeader = first-bounds[expectOK] >= 32
 		descr = fmt.Sprintf("%d bytes changed, first at %d (frame %d)", k, first, expectOK)
@@ -398,6 +411,28 @@ func framesProp(c *pbt.C) {
 		}
 		c.Class("writer-oversize")
 		return
+	}
+	if strict {
+		// where the stream on the wire really starts to differ from the valid one (an inserted byte can
+		// equal the byte it displaces, changes can cancel, swapped frames can share leading bytes)
+		lcp := 0
+		for lcp < len(stream) && lcp < len(valid) && stream[lcp] == valid[lcp] {
+			lcp++
+		}
+		cleanEOF, afterHeader = false, false
+		switch {
+		case lcp == len(stream) && lcp == len(valid): // nothing changed
+			expectOK, cleanEOF = n, true
+			kind = "none"
+		case lcp == len(stream): // a proper prefix: truncation
+			expectOK = frameOf(lcp)
+			cleanEOF = lcp == bounds[expectOK]
+			afterHeader = lcp-bounds[expectOK] >= 32
+		default:
+			expectOK = frameOf(lcp)
+			afterHeader = expectOK < n && lcp-bounds[expectOK] >= 32
+		}
+		descr += fmt.Sprintf("; first differing byte %d, in frame %d", lcp, expectOK)
 	}
 	c.Class("corruption-" + kind)
 	c.Note("%d messages, %d stream bytes, keys of %d bytes; corruption: %s", n, len(valid), len(sec.aes), descr)
